@@ -93,7 +93,9 @@ func runC01(c *core.Ctx) {
 		if rep.Hang != "" {
 			hangs++
 			cls := hangClass(rep.Hang)
-			if cls == "reader-idle-event-never-delivered" {
+			if cls == "sentinel-name-mangled" {
+				c.Violate("lost-event", "the sentinel's Create was delivered under a wrong name, i.e. not with the name of that entry: "+rep.Hang, rep.HangLog)
+			} else if cls == "reader-idle-event-never-delivered" {
 				c.Violate("lost-sentinel", "the sentinel's Create was never delivered although the reader is idle in read(2): "+strings.Join(rep.HangLog, "; "), dumpExcerpt(rep.Hang))
 			} else {
 				c.Inconclusive("barrier watchdog fired, dump class " + cls + " (not a C01 signature)")
